@@ -645,7 +645,7 @@ def _helperdefaults():
 RULES = [
     ("C20.HELPERDEFAULTS", 3, _helperdefaults()),
     ("C20.EXTNAMES", 20, rule_extnames),
-    ("C20.FORMATSAFE", 5, rule_formatsafe),
+    ("C20.FORMATSAFE", 1, rule_formatsafe),
     ("C20.PATTERNFLUSH", 1, rule_patternflush),
     ("C20.VALIDATORTOTAL", 10, rule_validatortotal),
     ("C20.CONVERTERS", 14, rule_converters),
